@@ -6,6 +6,7 @@ use simple_sds::bit_vector::rank_support::RankSupport;
 use simple_sds::bit_vector::select_support::SelectSupport;
 use simple_sds::ops::*;
 use simple_sds::raw_vector::AccessRaw;
+use simple_sds::serialize::Serialize;
 use simple_sds::rl_vector::RLVector;
 use simple_sds::sparse_vector::SparseVector;
 
@@ -107,6 +108,15 @@ pub fn exec_bv(st: &mut State, name: &str, t: &[&str]) -> String {
             st.objs.insert(name.to_string(), Obj::Bv(v));
             return s;
         },
+        // of_raw <raw object> : `BitVector::from(raw.clone())` — a plain bitvector over a raw vector with a history
+        // (pushes, pops, resizes, overwrites)
+        "of_raw" => {
+            let raw = match st.objs.get(t[1]) { Some(Obj::Raw(x)) => x.clone(), _ => panic!("harness: of_raw: no raw vector {}", t[1]) };
+            let v = BitVector::from(raw);
+            let s = bv_summary(&v);
+            st.objs.insert(name.to_string(), Obj::Bv(v));
+            return s;
+        },
         "from" => {
             // consuming conversion (From<T>)
             let src = st.objs.remove(t[1]).unwrap_or_else(|| panic!("harness: from: no source {}", t[1]));
@@ -152,6 +162,17 @@ pub fn exec_bv(st: &mut State, name: &str, t: &[&str]) -> String {
                 }
             }
             "ok".to_string()
+        },
+        // hreload : serialize the vector with the supports it has, load the bytes back, keep the LOADED copy under the same
+        // name (for vectors too large for a word-by-word recipe: the round trip of multi-megabyte `Vec`s)
+        "hreload" => {
+            let mut buf: Vec<u8> = Vec::new();
+            v.serialize(&mut buf).expect("harness: serialize into a Vec failed");
+            let size_ok = buf.len() == v.size_in_bytes();
+            match BitVector::load(&mut &buf[..]) {
+                Ok(l) => { let eq = l == *v; *v = l; format!("ok {} {}", size_ok as u8, eq as u8) },
+                Err(e) => format!("err:{:?}", e.kind()),
+            }
         },
         "supports" => format!("{} {} {} {}", v.supports_rank() as u8, v.supports_select() as u8, v.supports_select_zero() as u8, v.supports_pred_succ() as u8),
         "len" => v.len().to_string(),
